@@ -57,8 +57,9 @@ Definition sstep (x : ikind) (i : inst) (t : temporality) (tm : nat -> N) (s : s
       else ({| s_regs := s_regs s; s_agg := measure (cfg_of x t) k (vecof x v) (s_agg s); s_n := s_n s |}, [])
   | Register _ _ | Unregister _ =>
       ({| s_regs := reg_step (s_regs s) o; s_agg := s_agg s; s_n := s_n s |}, [])
-  | Collect script =>
-      (* produce: callbacks first, then the aggregation is computed *)
+  | Collect script _ =>
+      (* produce: callbacks first (their errors are joined and returned with the data), then the
+         aggregation is computed regardless *)
       let a1 := if is_async x
                 then measure_all (cfg_of x t) (vm x (delivered (s_regs s) script i)) (s_agg s)
                 else s_agg s in
@@ -92,7 +93,7 @@ Definition model (kinds : list ikind) (t0 : N) (tm : nat -> N) (h : list op) : l
     callback is silent) *)
 Definition erase_cb (c : cbid) (h : list op) : list op :=
   map (fun o => match o with
-                | Collect s => Collect (filter (fun a => negb (at_cb a =? c)%N) s)
+                | Collect s f => Collect (filter (fun a => negb (at_cb a =? c)%N) s) f
                 | _ => o
                 end) h.
 Definition registers (c : cbid) (o : op) : bool :=
